@@ -124,7 +124,7 @@ def run(ctx: fw.Ctx) -> int:
 
     G = g.Gen(ctx.rng)
     r = ctx.rng
-    n = ctx.scale(1200, 40000)
+    n = ctx.scale(1200, 15000)
     D: dict[str, list[fw.Case]] = {k: [] for k in ('keys', 'store', 'fetch', 'purge', 'touch', 'clear', 'dfetch', 'dstore')}
 
     corpus = [('_private', 'kopf.zalando.org', False), ('fn_', 'kopf.zalando.org', False), ('<lambda>', 'kopf.zalando.org', False),
